@@ -6,6 +6,9 @@ import Driver.FixupEng
 import Driver.ArgCheck
 import Driver.Equil
 import Driver.Read
+import Driver.Pre
+import Driver.Lacon
+import Driver.Rfs
 
 def readAll (h : IO.FS.Stream) : IO String := do
   let mut acc := ""
@@ -22,6 +25,9 @@ def main (args : List String) : IO UInt32 := do
   | ["pivot"] => Drv.pivotMain (← readAll stdin)
   | ["factor"] => Drv.factorMain (← readAll stdin)
   | ["read"] => Drv.readMain (← readAll stdin)
+  | ["lacon"] => Drv.laconMain (← readAll stdin)
+  | ["rfs"] => Drv.rfsMain (← readAll stdin)
+  | ["pre"] => Drv.preMain (← readAll stdin)
   | ["equil"] => Drv.equilMain (← readAll stdin)
   | ["argcheck"] => Drv.argcheckMain (← readAll stdin)
   | ["fixup"] => Drv.fixupMain (← readAll stdin)
